@@ -349,6 +349,26 @@ theorem no_block_with_exception (limit : Nat) (ops : List Op) :
     exec_xinv (initF_sinv true limit) (by intro _ _; rfl) ops
   exact hx hr he
 
+/-- **The entry check of `_wait()` (fix 2484903) is unreachable in this model's domain.** With the
+wake-up re-check in place, a call that parks (`blocked`) never does so with an exception recorded:
+every read API checks `_exception` before its first wait and `_wait()` re-checks it after every
+wake-up, and without re-entrant feeding nothing records an error while a call is running.  So
+"raise the recorded exception on entering `_wait()`" never fires here and the model needs no
+flag for it (the re-entrant case it exists for belongs to C09). -/
+theorem blocked_implies_no_exception (limit : Nat) (ops : List Op) (op : Op) :
+    (step (exec (initF true limit) ops) op).2 = .blocked →
+    (step (exec (initF true limit) ops) op).1.exc = none := by
+  intro hb
+  have hw := (blocked_only_on_empty_buffer true limit ops op).1 hb
+  have e : (step (exec (initF true limit) ops) op).1 = exec (initF true limit) (ops ++ [op]) := by
+    simp [exec, List.foldl_append]
+  rw [e] at hw ⊢
+  cases hx : (exec (initF true limit) (ops ++ [op])).exc with
+  | none => rfl
+  | some x =>
+    have := no_block_with_exception limit (ops ++ [op]) (by rw [hx]; simp)
+    rw [hw] at this; cases this
+
 /-- the two sequences of the finding, with the fix: both resumed reads raise exception 1 -/
 example :
     (run (initF true 8) [.beginChunk, .feed [120], .readAny false, .read (some 2) false, .endChunk,
